@@ -194,6 +194,9 @@ impl Prop for C04 {
         }
         out
     }
+    fn shrinkable(&self) -> bool {
+        false
+    }
     fn project(&self, _c: &Case, o: &Obs) -> String {
         text_only(o)
     }
